@@ -30,9 +30,7 @@ where
         let block_bits = mem::size_of::<T>()
             .checked_mul(8)
             .expect("Table size too large");
-        let bits = element_bits
-            .checked_mul(len)
-            .expect("Table size too large");
+        let bits = element_bits.checked_mul(len).expect("Table size too large");
         let blocks = bits / block_bits;
         let res = bits % block_bits;
         if res != 0 {
